@@ -48,9 +48,11 @@ PROP = {'drive': ['ShapeSpec'],
              'range), a nested ligature whose first component is not in an input sequence that a later '
              'component is in (testcases section 4), more than B-1 = 63 nested lookups per position, GPOS 3 '
              '(cursive; not in the property), value-record fields the library does not implement, int16 '
-             'overflow of an offset or advance, and mark attachment when an uncovered base / mark candidate '
-             'lies between the mark and the nearest covered glyph (the Go code attaches across it, the '
-             'OpenType sentence "the preceding base glyph" suggests no attachment: reported as an observation)',
+             'overflow of an offset or advance, GPOS 4.1 subtables whose copy of the GDEF glyph classes (a modelling '
+             'device: Gpos4_1.apply reads ctx.gdef, the model carries that map in the subtable, the driver fills it '
+             'from the GDEF of the case) differs from the GDEF table.  Mark attachment across an uncovered base / '
+             'mark2 candidate is now INSIDE Defined: the reference says no attachment, and the code was repaired '
+             '(C06-base)',
              'GPOS 5.1 (mark-to-ligature) has a stub apply in the repository and is not modelled; GPOS 7/8 are '
              'the contextual formats above'],
  'modelled_not_verified': ['the reference Spec.Shape is my reading of the OpenType chapters (lookup flags, GSUB, GPOS) '
@@ -62,7 +64,8 @@ PROP = {'drive': ['ShapeSpec'],
                  'from the end of the string; C06-ch3 ChainedSeqContext3.apply recorded the first input position '
                  'twice; C06-ch3skip its skip loops stopped one glyph early (an ignored glyph was matched) and the '
                  'lookahead of a nested application did not skip ignored glyphs at the window end; C06-attach GPOS '
-                 '4.1/6.1 offsets relative to the glyph attached to; '
+                 '4.1/6.1 offsets relative to the glyph attached to; C06-base (uncommitted, patches/C06): the '
+                 'backward search for the base glyph / mark2 stops at the first non-mark / non-skipped glyph; '
                  'corpus/C06/defects.case keeps the inputs that failed before the repairs',
                  'maps are association lists with distinct keys (the harness sends them sorted)']}
 
